@@ -14,7 +14,7 @@ from . import c06
 
 ID = 'C16'
 LEVEL = 'exploration'
-RUNS = {'quick': 1200}
+RUNS = {'quick': 4800}
 BUDGET_S = {'thorough': 600}
 CMD_WEIGHTS = {'filter': 5, 'list': 5, 'connection': 2}
 RULE = ('one evaluation = one simulated session replayed, same seed, under clock epoch 0 / a second epoch in [1, 2^32) and, in the '
